@@ -5,6 +5,7 @@ package c17
 // resulting block list is written to a history file and replayed verbatim by every other execution.
 
 import (
+	channeltypes "github.com/cosmos/ibc-go/v8/modules/core/04-channel/types"
 	"encoding/hex"
 	"fmt"
 	"math/big"
@@ -97,6 +98,7 @@ type gen struct {
 	relayer  detx.Key
 	ibcStep  int       // next step of the channel handshake
 	relayQ   []sdk.Msg // relay messages for the next block
+	unrelayed, timedOut []channeltypes.Packet // sent packets that are never delivered / were timed out already
 
 	seq          map[string]uint64
 	pend         []pendingTx
